@@ -155,6 +155,16 @@ package engine
 //@     frame nothing
 //@   ensures [duration_always_applied] result == nil && gib >= 2 ==> wrote && idx
 
+// Merging in-memory rows over file rows: a side's record is handed out WHOLE only if nothing of it has been
+// consumed yet (read position 0); otherwise the remainder from the read position is cut out. Handing out the whole
+// record again would repeat rows that were already emitted.
+//@ prop C02
+//@ func mergeData
+//@   call (*recordIter).hasRemainData
+//@     frame nothing
+//@   call (*recordIter).reset
+//@     requires [whole_record_only_from_start] recv.pos == 0
+
 // ================================================================ C13: deleted-series table per retention policy
 //@ prop C13
 // Every retention policy has its own table of dropped series ids; a policy's table is attached only to the indexes
